@@ -856,7 +856,7 @@ impl Property for C17 {
     fn runs(&self, tier: Tier) -> u64 {
         match tier {
             Tier::Quick => 120_000,
-            Tier::Thorough => 10_000_000,
+            Tier::Thorough => 100_000_000,
         }
     }
 
